@@ -61,8 +61,6 @@ def boot():
     if VERIF_DIR not in sys.path:
         sys.path.insert(1, VERIF_DIR)
     from simkit import sched
-
-    sched.install(os.path.join(src, "acryo"))
     import warnings
 
     warnings.filterwarnings("ignore")
@@ -72,6 +70,11 @@ def boot():
     import dask.array.linalg, dask.array.overlap  # noqa
     import polars  # noqa
     import sklearn.cluster, sklearn.utils.validation  # noqa
+    import cloudpickle  # noqa
+
+    # seams for locks / thread pools / threads created by acryo code: installed after the third-party imports (which keep
+    # the real classes) and before acryo is imported
+    sched.install(os.path.join(src, "acryo"))
     import acryo  # noqa
     import acryo.alignment, acryo.loader, acryo.pick, acryo.classification, acryo.tilt, acryo.backend  # noqa
     import acryo.classification._dask_pca  # noqa
